@@ -25,7 +25,7 @@ From RU Require Import Base.Prelude Base.Utf8 Model.AsciiSet Gen.Tables Model.Pe
   Model.HostT Model.UrlRecord Model.Parser Model.Setters Model.WF
   Proofs.ListN Proofs.C03_WF Proofs.C06_List Proofs.C06_WFI Proofs.C06_Tail Proofs.C06_Steps Proofs.C06_Suffix
   Proofs.C06_Front Proofs.C06_Atomic Proofs.C06_FragQuery Proofs.C06_Port Proofs.C06_Cred Proofs.C06_Scheme
-  Proofs.C06_HostNone Proofs.C06_Host Proofs.C06_PathParser Proofs.C06_Path Proofs.C06_Segments Proofs.C06_Main.
+  Proofs.C06_HostNone Proofs.C06_Host Proofs.C06_PathParser Proofs.C06_Path Proofs.C06_Segments Proofs.C06_PathNoAuth Proofs.C06_Main.
 
 (* 1. a mutator that reports failure returns the record unchanged (hence as_str() byte for byte).
    No premise at all: every record, every argument, all thirteen status-returning mutators. *)
@@ -213,7 +213,7 @@ Print Assumptions C06_known_refuted.
    state of the parser wrote - free of '?' and '#', empty or starting with '/'.
    auth_end_ok u: for a special non-file scheme the text in front of the path does not end in '/'
    (true of every parsed URL; wf_b does not say it).  Authority-less URLs are the classes F-C02-3
-   (opaque path), F-C02-8 and F-C03-5: see C06_path_noauth_refuted and C06_frame_path_noauth_statement. *)
+   (opaque path), F-C02-8 and F-C03-5: see C06_path_noauth_refuted and C06_frame_path_noauth. *)
 Theorem C06_frame_path : forall dbg u, wfh u -> has_authority_b u = true ->
   (forall p u', usv_list p -> auth_end_ok u -> set_path dbg u p = Some u' ->
      wfh u' /\ same_front dbg u u' /\ query dbg u' = query dbg u /\ fragment dbg u' = fragment dbg u
@@ -247,13 +247,34 @@ Theorem C06_path_noauth_refuted :
 Proof. split; [exact set_path_noauth_refuted | exact set_path_opaque_refuted]. Qed.
 Print Assumptions C06_path_noauth_refuted.
 
-(* What is NOT proved here (kept as a statement): set_path / path_segments_mut on a URL without
-   authority whose path starts with '/' (not opaque), outside the marker classes: there the result
-   must additionally not begin with "//". *)
-Definition C06_frame_path_noauth_statement : Prop :=
-  forall dbg u p u', wfh u -> has_authority_b u = false -> is_opaque_b u = false ->
-    path_start u = scheme_end u + 1 -> usv_list p ->
-    set_path dbg u p = Some u' -> path_starts_with_2slash u' = false ->
+(* 9. the same editors on an authority-less URL whose path starts with '/' and that has no "/." marker
+   (noauth_slash_path u): as above, provided the RESULT does not start with "//" - when it does, the
+   pinned code inserts no marker (F-C02-8, witness above). *)
+Theorem C06_frame_path_noauth : forall dbg u, wf_b u = true -> noauth_slash_path u ->
+  (forall p u', usv_list p -> set_path dbg u p = Some u' -> path_starts_with_2slash u' = false ->
+     wfh u' /\ same_front dbg u u' /\ query dbg u' = query dbg u /\ fragment dbg u' = fragment dbg u
+     /\ exists P, path u' = Some P /\ new_path_ok P)
+  /\ (forall ops u', Forall psm_op_usv ops -> path_segments_session dbg u ops = Some (u', SOk) ->
+     path_starts_with_2slash u' = false ->
+     wfh u' /\ same_front dbg u u' /\ query dbg u' = query dbg u /\ fragment dbg u' = fragment dbg u
+     /\ exists P, path u' = Some P /\ new_path_ok P).
+Proof. exact path_noauth_all. Qed.
+Check C06_frame_path_noauth : forall dbg u, wf_b u = true -> noauth_slash_path u ->
+  (forall p u', usv_list p -> set_path dbg u p = Some u' -> path_starts_with_2slash u' = false ->
+     wfh u' /\ same_front dbg u u' /\ query dbg u' = query dbg u /\ fragment dbg u' = fragment dbg u
+     /\ exists P, path u' = Some P /\ new_path_ok P)
+  /\ (forall ops u', Forall psm_op_usv ops -> path_segments_session dbg u ops = Some (u', SOk) ->
+     path_starts_with_2slash u' = false ->
+     wfh u' /\ same_front dbg u u' /\ query dbg u' = query dbg u /\ fragment dbg u' = fragment dbg u
+     /\ exists P, path u' = Some P /\ new_path_ok P).
+Print Assumptions C06_frame_path_noauth.
+
+(* What is NOT proved here (kept as statements): set_path on an opaque path (the class of F-C02-3:
+   '?' and '#' are written unencoded; for other arguments the statement below is expected to hold),
+   and the path editors on an authority-less URL that carries the "/." marker (class of F-C03-5). *)
+Definition C06_frame_path_opaque_statement : Prop :=
+  forall dbg u p u', wfh u -> is_opaque_b u = true -> usv_list p ->
+    forallb no_qh p = true -> set_path dbg u p = Some u' ->
     wfh u' /\ same_front dbg u u' /\ query dbg u' = query dbg u /\ fragment dbg u' = fragment dbg u.
 
 (* non-vacuity: the invariant is inhabited (http://u:p@h:81/a?q#f and an opaque-path URL) *)
